@@ -81,6 +81,14 @@ func zzC19Step(a, b *Router[*hnd], m *zzModel, op, i int) bool {
 		a.Prefix("/p").Prefix("/q").Remove("/w", "POST", "PUT")
 		b.Remove("/p/q/w", "POST", "PUT")
 		m.remove("/p/q/w", "POST", "PUT")
+	case 10: // a prefix that reaches into a parameter segment
+		a.Prefix("/p").Prefix("/{k").Clean()
+		for _, rt := range append([]zzRoute{}, m.routes...) {
+			if len(rt.p) >= 5 && rt.p[:5] == "/p/{k" {
+				b.Remove(rt.p)
+			}
+		}
+		m.clean("/p/{k")
 	case 9:
 		if m.handlerID("/p/q/v", "PUT") != 0 {
 			return false
@@ -95,12 +103,12 @@ func zzC19Step(a, b *Router[*hnd], m *zzModel, op, i int) bool {
 func zzRoutesString(r *Router[*hnd]) string {
 	rs := r.Routes()
 	s := ""
-	for _, p := range []string{"*", "/p/x", "/y/{id}", "/p/{k}/z", "/p/q/w", "/r/{id}", "/p/q/v"} {
+	for _, p := range []string{"*", "/p/x", "/y/{id}", "/p/{k}/z", "/p/q/w", "/r/{id}", "/p/q/v", "/p/1", "/p/2", "/p/3", "/p/4", "/p/5"} {
 		if ms, ok := rs[p]; ok {
 			s += p + "=" + zzJoin(ms) + ";"
 		}
 	}
-	return s + string(rune('0'+len(rs)))
+	return s + string(rune('a'+len(rs)))
 }
 
 // ZZC19(n): n = program length*10 + max probe path length.
@@ -110,8 +118,17 @@ func ZZC19(n int) {
 	a.Use(zzMW("U"))
 	b.Use(zzMW("U"))
 	m := &zzModel{}
+	if n >= 100 {
+		// a populated table: five literal siblings (first-byte index) next to a parameter route under /p/
+		for i, p := range []string{"/p/1", "/p/2", "/p/3", "/p/4", "/p/5", "/p/{k}/z"} {
+			a.Handle(p, &hnd{id: 60 + i}, nil, "GET")
+			b.Handle(p, &hnd{id: 60 + i}, nil, "GET")
+			m.add(p, 60+i, "GET")
+		}
+		n -= 100
+	}
 	for i := 0; i < n/10; i++ {
-		if !zzC19Step(a, b, m, zzv.Choice("op", 10), i) {
+		if !zzC19Step(a, b, m, zzv.Choice("op", 11), i) {
 			zzv.Assume(false)
 		}
 	}
